@@ -149,6 +149,12 @@ class StlDenseTimeOnlineAstVisitor(StlAstVisitor):
     def visitNext(self, node, *args, **kwargs):
         raise RTAMTException('Next operator not implemented in STL dense-time monitor.')
 
+    def visitStrongPrevious(self, node, *args, **kwargs):
+        raise RTAMTException('Strong previous operator not implemented in STL dense-time monitor.')
+
+    def visitStrongNext(self, node, *args, **kwargs):
+        raise RTAMTException('Strong next operator not implemented in STL dense-time monitor.')
+
     def visitTimedPrecedes(self, node, *args, **kwargs):
         raise RTAMTException('Precedes operator not implemented in STL dense-time monitor.')
 
